@@ -13,7 +13,7 @@ import re
 
 from ..engine import rule, run_property
 from ..model import Undecided, template_placeholders, xml_context
-from ..cfg import dotted, call_name, is_call, simple_name, unparse, const_value, contains, enclosing
+from ..cfg import same, dotted, call_name, is_call, simple_name, unparse, const_value, contains, enclosing
 from ..flow import Canon, Defs, depends, consteval, try_const, NotConst
 from ..decide import table, ret_kind
 from ..util import component_expr, resolve1, keyword, returns_of, calls_in, inside, order_key
@@ -117,7 +117,7 @@ def _class_origin(ctx, cq):
                         if bm is not None:
                             scan(bm, depth + 1)
                             break
-            if isinstance(st, ast.Assign) and any(unparse(t) == 'self.origin' for t in st.targets):
+            if isinstance(st, ast.Assign) and any(same(t, 'self.origin') for t in st.targets):
                 c = const_value(st.value, 'nonconst')
                 if c == 'nonconst':
                     state['dyn'] = True
@@ -167,8 +167,8 @@ def c02b(ctx):
     tm = ctx.fn('mapproxy/service/tile.py:TileServer.map')
     g = tm.cfg
     sets = g.find_stmts(lambda s: isinstance(s, ast.Assign) and unparse(s.targets[0]) == 'tile_request.origin')
-    ok = all(unparse(g.stmt[n].value) == 'self.origin' and
-             g.guarded(n, lambda at: at.op is None and unparse(at.expr) == 'tile_request.origin', False) for n in sets)
+    ok = all(same(g.stmt[n].value, 'self.origin') and
+             g.guarded(n, lambda at: at.op is None and same(at.expr, 'tile_request.origin'), False) for n in sets)
     ctx.check(ok, 'TileServer.map:configured-origin-only-as-default', 'the configured origin is only a default for requests without ?origin=', tm)
     # flip decision table
     fn = ctx.fn('mapproxy/service/tile.py:TileLayer._internal_tile_coord')
@@ -243,7 +243,7 @@ def c02c(ctx):
     g = fn.cfg
     support = lambda at: at.mentions(lambda x: is_call(x, 'supports_access_with_origin') and x.args and const_value(x.args[0]) in ('nw', 'ul'))
     tms = g.find(lambda x: is_call(x, 'TileMatrixSet'))
-    regs = g.find_stmts(lambda s: isinstance(s, ast.Assign) and isinstance(s.targets[0], ast.Subscript) and unparse(s.value) == 'layer')
+    regs = g.find_stmts(lambda s: isinstance(s, ast.Assign) and isinstance(s.targets[0], ast.Subscript) and same(s.value, 'layer'))
     for n, x in tms:
         ctx.check(g.guarded(n, support, True), 'WMTSServer._matrix_sets:matrix-set-only-if-nw', 'a TileMatrixSet is only built for a grid that '
                   'supports_access_with_origin("nw")', fn, x,
@@ -273,7 +273,7 @@ def c02c(ctx):
             ok_b = ok_b and c is not None and is_call(c[0], 'tile_bbox') and len(c[0].args) == 1
             if ok_b:
                 t = resolve1(c[0].args[0], defs)
-                ok_o = ok_o and is_call(t, 'origin_tile') and len(t.args) == 2 and const_value(t.args[1]) in ('ul', 'nw') and unparse(t.args[0]) == 'level'
+                ok_o = ok_o and is_call(t, 'origin_tile') and len(t.args) == 2 and const_value(t.args[1]) in ('ul', 'nw') and same(t.args[0], 'level')
     ctx.check(ok_o and ok_b, 'TileMatrixSet._tile_matrices:origin-tile-ul', 'the corner tile is grid.origin_tile(level, "ul")', tm)
     ctx.check(ok_b, 'TileMatrixSet._tile_matrices:corner-from-tile-bbox', 'the corner is taken from tile_bbox(origin tile)', tm)
     ok = len(tls) == 2 and ok_b
@@ -510,7 +510,7 @@ def c02f(ctx):
         v = sd[0]
         # res / <pixel size> * meter_per_unit(...)
         for x in ast.walk(v):
-            if isinstance(x, ast.BinOp) and isinstance(x.op, ast.Div) and unparse(x.left) == 'res':
+            if isinstance(x, ast.BinOp) and isinstance(x.op, ast.Div) and same(x.left, 'res'):
                 got = try_const(x.right, repo, wm)
         ok = got is not None and px is not None and abs(got - px) <= 1e-12 * abs(px) and \
             contains(v, lambda x: is_call(x, 'meter_per_unit')) and isinstance(v, ast.BinOp) and isinstance(v.op, ast.Mult)
@@ -532,7 +532,7 @@ def c02f(ctx):
     ok = len(rets) == 2
     for n in rets:
         v = g.stmt[n].value
-        if unparse(v) == 'METERS_PER_DEEGREE':
+        if same(v, 'METERS_PER_DEEGREE'):
             ok = ok and g.guarded(n, lambda at: at.op is None and 'is_latlong' in unparse(at.expr), True)
         else:
             ok = ok and const_value(v) == 1 and not g.guarded(n, lambda at: at.op is None and 'is_latlong' in unparse(at.expr), True)
